@@ -37,8 +37,8 @@ CLAIMED = {
             "Internal goroutine interleavings are sampled, not enumerated; 'never two' is decided after a fence plus 8ms of silence; replies lost together with a reset connection are attributed to the connection loss.",
             "DESIGN.md §2.1"),
     "C02": ("exploration",
-            "rapid-generated collision histories (equal stream ids on several clients, held replies released in generated permutations, stream-id recycling, stream exhaustion, late heartbeat replies); token round-trip oracle",
-            "Every forwarded request carries a unique token that the fake backend echoes; the check compares the token received on (client, stream) with the one sent there, across >2048-request recycling of backend stream ids, >2048 simultaneously held requests and late replies to timed-out internal requests.",
+            "rapid-generated collision histories (equal stream ids on several clients, held replies released in generated permutations, stream-id recycling, stream exhaustion, late heartbeat replies, immediate reuse of client stream ids across forwarded and locally answered requests); token round-trip oracle",
+            "Every forwarded request carries a unique token that the fake backend echoes; the check compares the token received on (client, stream) with the one sent there, across >2048-request recycling of backend stream ids, >2048 simultaneously held requests and late replies to timed-out internal requests; a sequential reuse family checks that every frame is the answer (backend result, backend error, or the proxy's own result/error) to the request outstanding on its stream and that nothing else arrives.",
             "Trusts the token echo of the fake backend; backend stream ids themselves are not inspected.",
             "DESIGN.md §2.2"),
     "C04": ("fault_enumeration",
@@ -48,7 +48,7 @@ CLAIMED = {
             "DESIGN.md §2.4"),
     "C05": ("fault_enumeration",
             "exhaustive enumeration of the retry decision functions + rapid-generated outcome scripts executed end to end against an independent model of the documented policy",
-            "The four decision functions are enumerated exhaustively over retry counts 0..5, field values 0..5, all write types and error kinds; end to end, the backend attempt trace (host, outcome) and the client's reply of every request must equal the trace computed by a reference implementation of the documented policy (plan order, skipped hosts, same/next host, exhaustion).",
+            "The four decision functions are enumerated exhaustively over retry counts 0..5, field values 0..5, all write types and error kinds; end to end, the backend attempt trace (host, outcome) and the client's reply of every request must equal the trace computed by a reference implementation of the documented policy (plan order, skipped hosts, same/next host, exhaustion); hosts are fully up, without any usable connection, or left with one of their two connections (still usable, must not be skipped).",
             "Requests of a case run sequentially; connection-loss scripts only on the last request of a case so that pool reconnection cannot make host availability ambiguous; plan start inferred from the first attempt.",
             "DESIGN.md §2.5"),
     "C06": ("exploration",
@@ -68,7 +68,7 @@ CLAIMED = {
             "DESIGN.md §2.15"),
     "C07": ("exploration",
             "rapid-generated multi-client histories (USE in every spelling, data requests, parallel USE, reconnects) against a per-client model of (version, compression, keyspace); oracle on the backend connection each request arrived on",
-            "2..5 clients of different versions/compressions, generated keyspace sets including names that differ only by case or need quoting; every tokenised QUERY/PREPARE/EXECUTE/BATCH must arrive on a backend connection whose recorded keyspace, version and compression equal the model's; USE must answer SET_KEYSPACE with the folded name or relay the backend's error and leave the state unchanged.",
+            "2..5 clients of different versions/compressions, generated keyspace sets including names that differ only by case or need quoting; every tokenised QUERY/PREPARE/EXECUTE/BATCH must arrive on a backend connection whose recorded keyspace, version and compression equal the model's; USE must answer SET_KEYSPACE with the folded name or relay the backend's error and leave the state unchanged; a quarter of the cases put scheduling pressure (spinning goroutines on every processor) on the proxy while a USE of a missing keyspace is in flight.",
             "The fake backend implements Cassandra's identifier rule for USE; interleavings of parallel USE are sampled.",
             "DESIGN.md §2.7"),
     "C08": ("fault_enumeration",
@@ -83,16 +83,16 @@ CLAIMED = {
             "DESIGN.md §2.14"),
     "C16": ("fault_enumeration",
             "rapid-generated reconnect-policy call sequences against an envelope model; rapid-generated backend fault sequences with bounded-eventuality convergence oracle (routing == live members); readiness endpoint of the real binary across an outage",
-            "Backoff: log-uniform base/max, NextDelay/Reset/Clone sequences. Healing: nodes added/removed/restarted, pooled and control connections dropped singly and together, silent connections, total outage, refusing node (attempt-rate bound), with millisecond timers; after each action probe requests must be routed to exactly the live members, pools must be complete, exactly one control connection must exist, within 400x the timers.",
-            "Liveness is decided as a bounded eventuality with a stall watchdog (missed bound on a stalled machine = inconclusive); the 10s refresh window is shortened through a verif hook; reconnect bases above 2^44 ns are not generated.",
+            "Backoff: log-uniform base/max, NextDelay/Reset/Clone sequences. Healing: nodes added/removed/restarted, pooled and control connections dropped singly and together, silent connections, total outage, refusing node (attempt-rate bound), with millisecond timers; after each action probe requests must be routed to exactly the live members, pools must be complete, exactly one control connection must exist, within 400x the timers. Removed nodes either hang up (decommission) or keep their established connections (only unlisted), so that 'requests stop going to it' is observable; a quarter of the cases first create backend sessions that never come up (USE of a missing keyspace).",
+            "Liveness is decided as a bounded eventuality with a stall watchdog (missed bound on a stalled machine = inconclusive); the 10s refresh window is shortened through a verif hook; reconnect bases above 2^44 ns are not generated; surplus backend sockets and dial attempts to removed nodes are not asserted (the property speaks about requests).",
             "DESIGN.md §2.16"),
     "C17": ("fault_enumeration",
             "rapid-generated hostile client byte streams (structured: hostile strings in every field, then header/framing mutations) and hostile backend replies, against the proxy as a child process; survival + canary-service oracle",
-            "The real binary (or a host program with fast timers) runs as a child; generated hostile clients and scripted hostile backend replies (to forwarded and to the proxy's own requests); after each case the process must be alive and a well-behaved canary's system query, forwarded query and prepared execute must be answered correctly.",
-            "Declared lengths above 16 MiB are out of scope; the TLS listener (--proxy-cert-file) is not exercised; the canary retries for up to 4s after hostile backend replies.",
+            "The real binary (or a host program with fast timers) runs as a child; generated hostile clients and scripted hostile backend replies (to forwarded and to the proxy's own requests); after each case the process must be alive, a new client must be able to connect, and a well-behaved canary's system query, forwarded query and prepared execute must be answered correctly. A sixth of the client cases run against a TLS listener (--proxy-cert-file): the hostile frames inside a TLS session, or a peer that never completes / garbles the TLS handshake and stays connected.",
+            "Declared lengths above 16 MiB are out of scope; the TLS family uses the real binary only; the canary retries for up to 4s after hostile backend replies.",
             "DESIGN.md §2.17"),
     "C18": ("exploration",
-            "the generated scenario families of C01/C02/C07/C08/C14/C16 plus a generated concurrent client/chaos mix, executed with harness and proxy compiled with -race; oracle: the Go race detector (reports with both access sites in cql-proxy)",
+            "the generated scenario families of C01/C02/C07/C08/C14/C16 plus a generated concurrent client/chaos mix (pipelined handshakes, membership churn under traffic), executed with harness and proxy compiled with -race; oracle: the Go race detector (reports with an access site in cql-proxy)",
             "Each generated case runs many proxy goroutines against shared state (sessions, pools, prepared cache, load balancer, event fan-out, handshake state) while the backend injects faults; every race report inside cql-proxy is a violation identified by the pair of functions; 'concurrent map' fatal errors likewise.",
             "A dynamic detector: no false positives, but only races on executions that occurred; functional oracles are ignored here.",
             "DESIGN.md §2.18"),
